@@ -21,13 +21,6 @@ import (
 	"verif/h/mc"
 )
 
-func maxBlocks(tier string) int {
-	if tier == "thorough" {
-		return 5
-	}
-	return 4
-}
-
 func units(tier string) []mc.Unit {
 	var us []mc.Unit
 	// range arithmetic
@@ -45,21 +38,30 @@ func units(tier string) []mc.Unit {
 		us = append(us, mc.Unit{Name: fmt.Sprintf("verify-gaps inerror-from=%d", endpoints[i]), Params: gapParams{"verify-inerror", i}})
 	}
 	// cuts
+	full := make([]int, len(blockOpts))
+	for i := range full {
+		full[i] = i
+	}
+	noMeta := []int{0, 1, 2, 3, 4, 5} // the options without metadata
 	for _, start := range []uint64{1, 7} {
-		for n := 1; n <= maxBlocks(tier); n++ {
+		for n := 1; n <= 5; n++ {
+			alpha, an := full, "full"
+			if n == 5 && tier != "thorough" {
+				alpha, an = noMeta, "no-metadata"
+			}
 			free := n
 			if free > 2 {
 				free = 2
 			}
 			prefix := make([]int, n-free)
 			for {
-				p := cutParams{Start: start, N: n, Prefix: append([]int{}, prefix...), Free: free}
-				us = append(us, mc.Unit{Name: fmt.Sprintf("cut start=%d blocks=%d prefix=%v", start, n, prefix), Params: p})
+				p := cutParams{Start: start, N: n, Prefix: append([]int{}, prefix...), Free: free, Alpha: alpha}
+				us = append(us, mc.Unit{Name: fmt.Sprintf("cut start=%d blocks=%d alphabet=%s prefix=%v", start, n, an, prefix), Params: p})
 				// next prefix (odometer over the block alphabet)
 				i := len(prefix) - 1
 				for ; i >= 0; i-- {
 					prefix[i]++
-					if prefix[i] < len(blockOpts) {
+					if prefix[i] < len(alpha) {
 						break
 					}
 					prefix[i] = 0
@@ -102,7 +104,7 @@ func main() {
 		Run:   run,
 		Setup: func(string) { kit.Quiet() },
 		Rule: "cut unit = (first block, number of blocks, layout of the leading blocks); choice points = layout of the last two " +
-			"blocks (11 options each: {0,1,2 bridges}x{0,1 claims}x metadata {0,4096} bytes), previous certificate " +
+			"blocks (11 options each: {0,1,2 bridges}x{0,1 claims}x metadata {0,4096} bytes; quick tier, 5 blocks: the 6 options without metadata), previous certificate " +
 			"(none/settled/in error = retry), certificate type (pp/fep/optimistic); inner loops (counted as evaluations) = every " +
 			"MaxCertSize in {0,1,maxuint} U {size(prefix)-1,size,size+1 for every prefix} through the real base flow, then for every " +
 			"distinct size-limited result every MaxL2BlockNumber in 0..from+6 through the real limiter in each configuration the " +
@@ -119,8 +121,12 @@ func main() {
 			"[0,0] doubles as the empty BlockRange and CountBlocks of [0,2^64-1] is not representable: both are reported, not judged",
 		},
 		Bounds: func(tier string) map[string]any {
-			return map[string]any{"first_block": []int{1, 7}, "blocks": fmt.Sprintf("1..%d", maxBlocks(tier)),
-				"per_block": "{0,1,2 bridges}x{0,1 claims}x metadata {0,4096}", "max_cert_size": "0,1,maxuint and every prefix size -1/0/+1",
+			perBlock := "{0,1,2 bridges}x{0,1 claims}x metadata {0,4096} for 1..4 blocks; without metadata for 5 blocks"
+			if tier == "thorough" {
+				perBlock = "{0,1,2 bridges}x{0,1 claims}x metadata {0,4096}"
+			}
+			return map[string]any{"first_block": []int{1, 7}, "blocks": "1..5",
+				"per_block": perBlock, "max_cert_size": "0,1,maxuint and every prefix size -1/0/+1",
 				"max_l2_block": "0..from+6", "previous_certificate": "none/settled/inError", "certificate_type": "pp/fep/optimistic",
 				"range_endpoints": "0..5, 2^64-3..2^64-1 (all 45x45 pairs of well-formed ranges)"}
 		},
